@@ -52,6 +52,11 @@ def formulate_from_request(req: dict) -> dict:
     if prepared is None:
         return {"error": "no_transitions"}
     model = prepared.builder.formulate()
+    if req.get("want") == "pickle":
+        import base64  # noqa: PLC0415
+        import pickle  # noqa: PLC0415
+
+        return {"pickle": base64.b64encode(pickle.dumps(model, 4)).decode()}
     return model_digest(model)
 
 
